@@ -149,7 +149,7 @@ pub fn stats_roundtrip(data: &[u8]) {
         };
         ss[i % sessions].push(RecSpec::Synthetic { kind: data[1].wrapping_add(i as u8), context: vec![spec] });
     }
-    let case = StatsCase { sessions: ss, when: data[1] as i64 - 7, uuid_seed: data[0] as u64 };
+    let case = StatsCase { sessions: ss, when: data[1] as i64 - 7, uuid_seed: data[0] as u64, when_offsets: vec![0, -(data[0] as i64), data[1] as i64] };
     let mut ctx = CaseCtx::default();
     must(crate::props::c19::test_stats(&case, &mut ctx), &ctx);
 }
